@@ -19,7 +19,10 @@ Kinds == {"dir", "file", "slink", "link", "pipe"}
 (* dir_tree_iterator.c, lib/sqfs/src/io/dir_hl.c): scans a source directory on disk and adds what it finds below       *)
 (* <path>.  Two fixed source trees: S1 = {a, b = hard link of a}; S2 = {a/, a/a, a/b = hard link of a/a, b}.            *)
 GlobSrcs == {"S1", "S2"}
-GlobOpts == {"none", "nohl", "nonrec"}
+GlobOpts == {"none", "nohl", "nonrec", "typef", "typed", "typefd", "namea"}
+(* filters (-type, -name): an entry that does not pass is not reported; a directory that does not pass is still descended, and what is   *)
+(* found below it is added only if a node for its parent exists already ("the scanning will not add new directory nodes", gensquashfs.1) *)
+(* The second name of a hard-linked inode is reported by the scanner with the type of a symbolic link: -type f drops it.                  *)
 Directive == [kind : Kinds \ {"link"}, path : Paths, uid : {0, 1}, tgt : {<<>>}, src : {"-"}, opt : {"-"}]
              \cup [kind : {"link"}, path : Paths \ {<<>>}, uid : {0}, tgt : Paths \ {<<>>}, src : {"-"}, opt : {"-"}]
              \cup [kind : {"glob"}, path : Paths, uid : {1}, tgt : {<<>>}, src : GlobSrcs, opt : GlobOpts]
@@ -29,7 +32,12 @@ SrcEntries(src) ==                      \* in scan order (sorted, parents first)
           [rel |-> <<"a", "b">>, kind |-> "hl", tgt |-> <<"a", "a">>], [rel |-> <<"b">>, kind |-> "file", tgt |-> <<>>] >>
 GlobEntries(src, opt) ==
   LET all == SrcEntries(src)
-      kept == IF opt = "nonrec" THEN SelectSeq(all, LAMBDA e : Len(e.rel) = 1) ELSE all
+      kept == CASE opt = "nonrec" -> SelectSeq(all, LAMBDA e : Len(e.rel) = 1)
+                [] opt = "typef" -> SelectSeq(all, LAMBDA e : e.kind = "file")
+                [] opt = "typed" -> SelectSeq(all, LAMBDA e : e.kind = "dir")
+                [] opt = "typefd" -> SelectSeq(all, LAMBDA e : e.kind \in {"file", "dir"})
+                [] opt = "namea" -> SelectSeq(all, LAMBDA e : e.rel[Len(e.rel)] = "a")
+                [] OTHER -> all
   IN [i \in 1..Len(kept) |-> IF opt = "nohl" /\ kept[i].kind = "hl" THEN [kept[i] EXCEPT !.kind = "file", !.tgt = <<>>] ELSE kept[i]]
 Parent(p) == SubSeq(p, 1, Len(p) - 1)
 Prefixes(p) == {SubSeq(p, 1, k) : k \in 1..(Len(p) - 1)}
